@@ -23,6 +23,7 @@ import (
 	"go/ast"
 	"go/parser"
 	"go/token"
+	"hash/fnv"
 	"io"
 	"math"
 	"os"
@@ -122,7 +123,7 @@ func robustUniverse(tier string) []*V {
 	long := strings.TrimSpace(strings.Repeat("lorem ipsum dolor ", 20))
 	u := []*V{
 		VNil(), VBool(true), i(0), i(-1), i(5), i(2000), i(9223372036854775807), VFlt(1, 2.5),
-		s(""), s("abc"), s("héllo wörld 😀 x"), s("10"),
+		s(""), s("abc"), s("héllo wörld 😀 x"), s("10"), s("a\vb \f c\u0085d\u00a0e\u2028f"), // every kind of white space Go and Unicode know: two loops of one filter must agree on what a blank is
 		VAnys(), VAnys(VNil(), i(1)), VAnys(s("b"), s("a"), i(3)),
 		VStrMap(SKV("a", i(1)), SKV("b", i(2))), VMap(TInt(0), TAny, KV(i(1), s("x"))), VRange(3, 1),
 		VAnys(VStrMap(SKV("name", s("b")), SKV("abc", i(1))), VStrMap(SKV("name", s("a")))), // objects, one lacking a key
@@ -796,6 +797,28 @@ func robustStream(r *Run) {
 		}
 	}
 
+	// (1b3) nil pointers of every pointee type as ELEMENTS (a typed nil pointer inside an interface is not nil to Go: code
+	// that looks through pointers to a type it knows, such as *time.Time, must check before it dereferences). The pointee
+	// type of 'N' is derived from the environment's encoding (nilPtrFlavor); a filler binding steers it to each flavour.
+	{
+		arrs := []*V{VAnys(VNilPtr(), VPtr(VInt(0, 7))), VAnys(VNilPtr()), VAnys(VPtr(VTime(1577934245)), VNilPtr(), VTime(0)), VStrMap(SKV("k", VNilPtr())),
+			VAnys(VStrMap(SKV("k", VNilPtr())), VStrMap(SKV("k", VTime(0))))}
+		pforms := []string{"{% if a contains 1 %}T{% else %}F{% endif %}", "{% if a contains t %}T{% else %}F{% endif %}", "{% if a == b %}T{% else %}F{% endif %}{% if a != a %}T{% endif %}",
+			"{{ a | sort | size }}|{{ a | sort_natural | size }}|{{ a | uniq | size }}|{{ a | compact | size }}", "{% case a %}{% when b %}T{% else %}F{% endcase %}{% case a[0] %}{% when t %}T{% endcase %}",
+			"{{ a | join }}|{{ a | first }}|{{ a[0] }}|{{ a[0].Year }}|{{ a.k }}", "{% if a[0] < t %}T{% endif %}{% if a[0] == t %}T{% endif %}{% if a.k == t %}T{% endif %}{% if t > a.k %}T{% endif %}",
+			"{{ a | map: 'k' | sort | size }}|{{ a | sort: 'k' | size }}|{{ a | where: 'k' | size }}", "{{ a | json }}|{{ a | inspect }}|{{ a[0] | date: '%Y' }}|{{ a.k | date: '%Y' }}"}
+		for f := 0; f < nilPtrFlavors; f++ {
+			for _, a := range arrs {
+				for _, b := range arrs[:3] {
+					for _, pf := range pforms {
+						env := envWithNilFlavor(map[string]*V{"a": a, "b": b, "t": VTime(1577934245)}, f)
+						run(plain, pf, env, "nil-pointer-elements")
+					}
+				}
+			}
+		}
+	}
+
 	// (1c) times: {{ t }}, the date filter on times and on date strings, times inside containers (stream_filter_date.go)
 	for _, tc := range dateTemplateFamily() {
 		run(plain, tc.src, tc.env, "date-family")
@@ -916,6 +939,18 @@ func robustStream(r *Run) {
 		}
 	}
 	_ = time.Now
+}
+
+// envWithNilFlavor adds a filler binding so that RealiseEnv gives the environment's nil pointers the pointee type f.
+func envWithNilFlavor(env map[string]*V, f int) map[string]*V {
+	for k := int64(0); ; k++ {
+		env["zfill"] = VInt(0, k)
+		h := fnv.New32a()
+		h.Write([]byte(EncEnv(env)))
+		if int(h.Sum32()%nilPtrFlavors) == f {
+			return env
+		}
+	}
 }
 
 // exportedMethodNames: the exported method names of the given values' types (what reflect's MethodByName finds), sorted.
